@@ -258,6 +258,15 @@ fn general_case(ctx: &mut Ctx, maxn: usize) {
   let delays = [tau, -tau];
   let ser = guard(|| hom_rate_series(fs, &f, &g, delays.iter().map(|t| *t * S).collect::<Vec<Time>>()));
   ctx.k("hom_rate_series", &format!("{} 2 {} {} {}", gs, fls(&delays), cxs(&f), cxs(&g)), &out_fls(&ser));
+  // S: a delay series equals the individually computed rates — also for unrelated arrays
+  if lf >= len && lg >= len && len > 0 && jsi_norm(&f) > 0.0 {
+    let ind: Vec<Option<f64>> = delays.iter().map(|t| guard(|| hom_rate(fs, &f, &g, *t * S, None))).collect();
+    let ok = match &ser {
+      Some(v) => v.len() == 2 && v.iter().zip(ind.iter()).all(|(x, y)| matches!(y, Some(y) if close(*x, *y, 1e-12, 1e-13))),
+      None => false,
+    };
+    ctx.s("C09.series", ok, "hom/series-eq-individual-general", &format!("nx={} ny={} {} lf={} lg={} delays={:?} seedcase={}", nx, ny, grid_txt(&fs), lf, lg, delays, ctx.seed));
+  }
   // empty delay list never touches the arrays
   let ser0 = guard(|| hom_rate_series(fs, &f, &g, Vec::<Time>::new()));
   ctx.k("hom_rate_series", &format!("{} 0 {} {}", gs, cxs(&f), cxs(&g)), &out_fls(&ser0));
